@@ -58,6 +58,23 @@ func checkU128(c *vcommon.Case, u *scale.Uint128) {
 	if err := fromDec.UnmarshalJSON([]byte(V.String())); err != nil || fromDec != *u {
 		c.Violation("json-decode", fmt.Sprintf("UnmarshalJSON(%s)=%+v err=%v", V, fromDec, err), w)
 	}
+	// two conversions of the same number must be independent objects: mutating one (as JSON decoding into it
+	// does) must not change what a later conversion of the same number denotes
+	if a, err := scale.NewUint128(V); err == nil && a != nil {
+		_ = a.UnmarshalJSON([]byte("340282366920938463463374607431768211455"))
+		a.Upper, a.Lower = ^uint64(0)-1, 12345
+		if b, err := scale.NewUint128(V); err != nil || b == nil || *b != *u {
+			c.Violation("from-big-shared-object", fmt.Sprintf("after mutating one NewUint128(%s) result, a second NewUint128(%s) = %+v err=%v", V, V, b, err), w)
+		}
+		if b2, err := scale.NewUint128(le); err != nil || b2 == nil || *b2 != *u {
+			c.Violation("from-le-shared-object", fmt.Sprintf("after mutating one NewUint128 result, NewUint128(LE %x) = %+v err=%v", le, b2, err), w)
+		}
+		var viaJSON scale.Uint128
+		if err := viaJSON.UnmarshalJSON([]byte(V.String())); err != nil || viaJSON != *u {
+			c.Violation("json-decode-after-mutation", fmt.Sprintf("UnmarshalJSON(%s) after an unrelated mutation = %+v err=%v", V, viaJSON, err), w)
+		}
+		c.Count("independent_object_checks", 3)
+	}
 	// decoding into a destination that already holds another value (encoding/json reuses non-nil
 	// *Uint128 struct fields) must overwrite it completely
 	for _, prev := range []scale.Uint128{{Upper: ^uint64(0), Lower: ^uint64(0)}, {Upper: 1, Lower: 0}, {Upper: 0, Lower: 1 << 63}, {Upper: u.Lower, Lower: u.Upper}} {
@@ -108,6 +125,7 @@ func TestVerifC13(t *testing.T) {
 	r.Floor("non_palindromic", 50)
 	r.Floor("values", 400)
 	r.Floor("json_decodes_into_reused_destination", 2000)
+	r.Floor("independent_object_checks", 2000)
 
 	// fixed corpus: byte boundaries and asymmetric patterns (seed independent)
 	var fixed []*scale.Uint128
